@@ -540,6 +540,11 @@ class ktensor:
             ), "weight_factor must be in the range of self.ndims"
 
         # arrange columns of factor matrices using the permutation provided
+        if permutation is not None and not isinstance(
+            permutation, (tuple, list, np.ndarray)
+        ):
+            # Any other sequence of component numbers (e.g. a range)
+            permutation = list(permutation)
         if permutation is not None and isinstance(
             permutation, (tuple, list, np.ndarray)
         ):
